@@ -444,10 +444,35 @@ func c18Sequences(n, L, d int, devBlocks []int, f func(seq []c18Entry)) {
 	rec(0, d)
 }
 
-func c18Elements() (elems []c18Elem, rule string) {
+// c18Packed is the compact stored form of an element (the thorough tier holds ~10^7 of them).
+type c18Packed struct {
+	space, n, target, msgDev, cnt uint8
+	ent                          [7][3]int8
+}
+
+func c18Pack(space string, n, target, msgDev int, seq []c18Entry) c18Packed {
+	if len(seq) > 7 {
+		panic("c18: more than 7 entries")
+	}
+	p := c18Packed{space: space[1] - '0', n: uint8(n), target: uint8(target), msgDev: uint8(msgDev), cnt: uint8(len(seq))}
+	for i, e := range seq {
+		p.ent[i] = [3]int8{int8(e.Slot), int8(e.Kind), int8(e.Blk)}
+	}
+	return p
+}
+
+func (p *c18Packed) unpack() *c18Elem {
+	e := &c18Elem{Space: "S" + string('0'+p.space), N: int(p.n), Target: int(p.target), MsgDev: int(p.msgDev)}
+	for i := 0; i < int(p.cnt); i++ {
+		e.Entries = append(e.Entries, c18Entry{int(p.ent[i][0]), int(p.ent[i][1]), int(p.ent[i][2])})
+	}
+	return e
+}
+
+func c18Elements() (elems []c18Packed, rule string) {
 	targets := []int{c18A, c18A1, c18B}
 	add := func(space string, n, target, msgDev int, seq []c18Entry) {
-		elems = append(elems, c18Elem{Space: space, N: n, Target: target, MsgDev: msgDev, Entries: append([]c18Entry{}, seq...)})
+		elems = append(elems, c18Pack(space, n, target, msgDev, seq))
 	}
 	// S0: one entry per authority or none, no deviations, n = 1..7
 	for n := 1; n <= 7; n++ {
@@ -471,7 +496,7 @@ func c18Elements() (elems []c18Elem, rule string) {
 	type s1b struct{ n, maxL int }
 	s1 := verifmc.Pick(
 		[]s1b{{1, 3}, {2, 4}, {3, 5}, {4, 5}},
-		[]s1b{{1, 3}, {2, 4}, {3, 5}, {4, 6}, {5, 7}, {6, 6}, {7, 6}})
+		[]s1b{{1, 3}, {2, 4}, {3, 5}, {4, 6}, {5, 6}, {6, 6}, {7, 6}})
 	for _, b := range s1 {
 		for L := 0; L <= b.maxL; L++ {
 			c18Sequences(b.n, L, 0, nil, func(seq []c18Entry) {
@@ -485,7 +510,7 @@ func c18Elements() (elems []c18Elem, rule string) {
 	type s2b struct{ n, maxL, dmax int }
 	s2 := verifmc.Pick(
 		[]s2b{{1, 3, 2}, {2, 4, 2}, {3, 4, 2}, {4, 4, 1}},
-		[]s2b{{1, 3, 3}, {2, 4, 3}, {3, 5, 2}, {4, 5, 2}, {5, 4, 2}, {6, 4, 2}, {7, 4, 2}})
+		[]s2b{{1, 3, 3}, {2, 4, 3}, {3, 4, 3}, {4, 4, 2}, {5, 4, 2}, {6, 4, 2}, {7, 4, 2}})
 	devBlocksQuick := []int{c18A, c18B}
 	devBlocksThorough := []int{c18A, c18A1, c18B}
 	devBlocks := verifmc.Pick(devBlocksQuick, devBlocksThorough)
@@ -549,39 +574,76 @@ func c18ClassKey(e *c18Elem, res c18Result, oc c18Counts) string {
 	return fmt.Sprintf("n%d|%s|%s|fin=%d|%s", e.N, c18MsgName[e.MsgDev], strings.Join(beh, ";"), len(res.Finalised), res.Err)
 }
 
-// c18Vio is one violation; violations are collected and reported simplest first (fewest entries,
-// smallest n, enumeration order) so that the witnesses kept per signature are minimal and the same in every run.
+// c18Vio is one violation.  Per signature only the count and the 3 simplest witnesses (fewest entries,
+// smallest n, enumeration order) are kept, so the reported witnesses are minimal and the same in every run.
 type c18Vio struct {
-	sig, desc string
-	elem      *c18Elem
-	replay    any
-	order     int
+	elem  *c18Elem
+	order int
+	mk    func() (desc string, replay any)
+}
+
+func (a *c18Vio) less(b *c18Vio) bool {
+	if len(a.elem.Entries) != len(b.elem.Entries) {
+		return len(a.elem.Entries) < len(b.elem.Entries)
+	}
+	if a.elem.N != b.elem.N {
+		return a.elem.N < b.elem.N
+	}
+	return a.order < b.order
+}
+
+type c18SigBucket struct {
+	count int
+	best  []c18Vio
 }
 
 type c18Sink struct {
 	mu   sync.Mutex
-	vios []c18Vio
+	sigs map[string]*c18SigBucket
 }
 
-func (s *c18Sink) Violate(sig, desc string, e *c18Elem, replay any, order int) {
+func (s *c18Sink) Violate(sig string, e *c18Elem, order int, mk func() (string, any)) {
 	s.mu.Lock()
-	s.vios = append(s.vios, c18Vio{sig, desc, e, replay, order})
-	s.mu.Unlock()
+	defer s.mu.Unlock()
+	if s.sigs == nil {
+		s.sigs = map[string]*c18SigBucket{}
+	}
+	b := s.sigs[sig]
+	if b == nil {
+		b = &c18SigBucket{}
+		s.sigs[sig] = b
+	}
+	b.count++
+	v := c18Vio{e, order, mk}
+	b.best = append(b.best, v)
+	sort.SliceStable(b.best, func(i, j int) bool { return b.best[i].less(&b.best[j]) })
+	if len(b.best) > 3 {
+		b.best = b.best[:3]
+	}
 }
 
 func (s *c18Sink) flush(r *verifmc.Report) {
-	sort.SliceStable(s.vios, func(i, j int) bool {
-		a, b := s.vios[i], s.vios[j]
-		if len(a.elem.Entries) != len(b.elem.Entries) {
-			return len(a.elem.Entries) < len(b.elem.Entries)
+	var sigs []string
+	for k := range s.sigs {
+		sigs = append(sigs, k)
+	}
+	// signatures in the order of their simplest witness
+	sort.Slice(sigs, func(i, j int) bool {
+		a, b := s.sigs[sigs[i]].best[0], s.sigs[sigs[j]].best[0]
+		if a.less(&b) != b.less(&a) {
+			return a.less(&b)
 		}
-		if a.elem.N != b.elem.N {
-			return a.elem.N < b.elem.N
-		}
-		return a.order < b.order
+		return sigs[i] < sigs[j]
 	})
-	for _, v := range s.vios {
-		r.Violate(v.sig, v.desc, v.replay)
+	for _, sig := range sigs {
+		b := s.sigs[sig]
+		for _, v := range b.best {
+			desc, replay := v.mk()
+			r.Violate(sig, desc, replay)
+		}
+		for i := len(b.best); i < b.count; i++ {
+			r.Violate(sig, "", nil) // counted only
+		}
 	}
 }
 
@@ -595,7 +657,7 @@ func c18Check(r *verifmc.Report, sink *c18Sink, order int, t *testing.T, e *c18E
 			"needs_more_than": fmt.Sprintf("2n/3 = %d/3", 2*e.N), "repeat": 5}
 	}
 	if res.Panic != "" {
-		sink.Violate("panic:"+verifmc.PanicSite(res.Panic), res.Panic, e, mkReplay(), order)
+		sink.Violate("panic:"+verifmc.PanicSite(res.Panic), e, order, func() (string, any) { return res.Panic, mkReplay() })
 		return
 	}
 	accepted := len(res.Finalised) > 0 || res.Err == "nil"
@@ -614,8 +676,10 @@ func c18Check(r *verifmc.Report, sink *c18Sink, order int, t *testing.T, e *c18E
 	if len(res.Finalised) > 0 && e.MsgDev != c18MsgTargetUnknown {
 		for _, f := range res.Finalised {
 			if f != c18BlkName[e.Target] {
-				sink.Violate("commit-finalises-a-block-other-than-its-target",
-					fmt.Sprintf("%s: SetFinalisedHash(%s)", e.render(), f), e, mkReplay(), order)
+				f := f
+				sink.Violate("commit-finalises-a-block-other-than-its-target", e, order, func() (string, any) {
+					return fmt.Sprintf("%s: SetFinalisedHash(%s)", e.render(), f), mkReplay()
+				})
 			}
 		}
 	}
@@ -629,9 +693,10 @@ func c18Check(r *verifmc.Report, sink *c18Sink, order int, t *testing.T, e *c18E
 		if len(res.Finalised) == 0 && e.MsgDev == c18MsgDeliveredTwice {
 			return
 		}
-		sink.Violate("commit-finalises-below-supermajority:"+oc.Explained,
-			fmt.Sprintf("%s: %s (err=%s) although only %d distinct authorities validly precommitted to the target chain or genuinely equivocated; more than 2n/3 = %d/3 are required (floor(2n/3) = %d)",
-				e.render(), what, res.Err, oc.C0, 2*e.N, oc.T), e, mkReplay(), order)
+		sink.Violate("commit-finalises-below-supermajority:"+oc.Explained, e, order, func() (string, any) {
+			return fmt.Sprintf("%s: %s (err=%s) although only %d distinct authorities validly precommitted to the target chain or genuinely equivocated; more than 2n/3 = %d/3 are required (floor(2n/3) = %d)",
+				e.render(), what, res.Err, oc.C0, 2*e.N, oc.T), mkReplay()
+		})
 	}
 	// non-vacuity: the honest full commit must be accepted
 	if e.Space == "S0" && len(e.Entries) == e.N {
@@ -686,9 +751,10 @@ func TestVerif_C18(t *testing.T) {
 	r.Assumption("the code path ranges over no map (getEquivocatoryVoters and authorityKeySet only build and look up maps), so elements are executed once; violations are re-executed 5 times before being reported")
 	sink := &c18Sink{}
 	verifmc.ParallelFor(r, len(elems), func(i int) {
-		c18Check(r, sink, i, t, &elems[i])
+		c18Check(r, sink, i, t, elems[i].unpack())
 	}, func(i int, msg string) {
-		sink.Violate("harness-panic", msg, &elems[i], map[string]any{"elem": &elems[i]}, i)
+		e := elems[i].unpack()
+		sink.Violate("harness-panic", e, i, func() (string, any) { return msg, map[string]any{"elem": e} })
 	})
 	sink.flush(r)
 	// every violation kept in the report must reproduce (5x)
@@ -711,9 +777,9 @@ func TestVerif_C18(t *testing.T) {
 		}
 	}
 	if len(elems) > 0 {
-		r.Sample(elems[0].render())
-		r.Sample(elems[len(elems)/3].render())
-		r.Sample(elems[len(elems)/2].render())
-		r.Sample(elems[len(elems)-1].render())
+		r.Sample(elems[0].unpack().render())
+		r.Sample(elems[len(elems)/3].unpack().render())
+		r.Sample(elems[len(elems)/2].unpack().render())
+		r.Sample(elems[len(elems)-1].unpack().render())
 	}
 }
